@@ -282,7 +282,8 @@ fn staged(s: &Script) -> Vec<Vec<u8>> {
 }
 
 fn observe(s: &Script) -> Obs {
-  let peer = PeerRun::start_staged(staged(s), s.cuts.clone());
+  // the honest family is played by a strict peer: it answers only requests addressed to the id it assigned
+  let peer = PeerRun::start_staged_for(staged(s), s.cuts.clone(), if s.served.is_some() { s.ut_id } else { 0 });
   let addr = peer.addr;
   let target = s.target;
   let result = std::panic::catch_unwind(move || imdl::verif::peer_fetch(addr, target)).unwrap_or(Err("panic".into()));
